@@ -218,6 +218,10 @@ func runC14(c *core.Ctx) {
 				if !c.Thorough() && len(seq) == 2 && (seq[0] >= nValid+2 || seq[1] >= nValid+2) {
 					continue
 				}
+				// thorough: every history of length 3; length 4 after two of the valid documents or the first two failures
+				if c.Thorough() && len(seq) == 3 && (seq[0] >= nValid+2 || seq[1] >= nValid+2) {
+					continue
+				}
 				seq = append(seq, i)
 				rec()
 				seq = seq[:len(seq)-1]
@@ -263,7 +267,7 @@ func runC14(c *core.Ctx) {
 			}
 		}
 	}
-	c.R.Bound = fmt.Sprintf("all load histories of length <= %d (quick: length 3 only after two of the valid documents or the first two failures); all reader-fault offsets", maxLen)
+	c.R.Bound = fmt.Sprintf("all load histories of length <= %d (the longest histories only after two of the valid documents or the first two failures); all reader-fault offsets", maxLen)
 	if !completed {
 		c.Cap("deadline reached")
 	}
